@@ -51,6 +51,23 @@ CLAIMS["C13"] = (
     "titles, SDF truncation beyond the header for all cut points (all covered by the every-cut-point correspondence).",
     "DESIGN.md §5 C13",
 )
+CLAIMS["C01"] = (
+    "Lean: an orbital denotes a finitely supported map from primitive keys (centre, exponent, l, kind, unsigned label) to "
+    "coefficients; for ALL shell lists (any order/centres), convention dictionaries and contraction lengths (induction over "
+    "the shell list): convert_conventions preserves the denotation (from C10's key lemma); the WFN/WFX writer with "
+    "target-order scales writes a file denoting the same function and IOData's reader (regrouping + division by an abstract "
+    "nowhere-zero scale) returns the same denotation; for the code as it stands (variant read off the writers on every run): "
+    "_violated witnesses and _partial theorems for WFN/WFX source-order scales, Molden [GTO] sorting, Molekel $$ separators "
+    "and beta irreps, FCHK unconverted densities. Tie: tracer objects written by the real writers, tokenized independently, "
+    "normalisation divided out, compared row by row with the model. Search on the real code: dump_one -> load_one on random "
+    "objects and every corpus wavefunction file x 5 formats x allow_changes, orbitals compared as functions of space with an "
+    "evaluator written from docs/basis.rst, plus occupations, energies, spin labelling, density matrices.",
+    "Lean 4 proof (induction over shell lists, list/zip lemmas, decide for witnesses) + structural model-vs-code "
+    "correspondence + direct search with an independent evaluator",
+    "Modelled over the integers with an abstract scale; text scanning, the Molden/MKL/FCHK round trips of the repaired "
+    "variants outside the _partial sub-domains, and the readers' normalisation test are covered by the search only.",
+    "DESIGN.md §5 C01",
+)
 
 NOT_YET = {}
 
